@@ -84,6 +84,7 @@ func (it *Interp) keyMatch(a, b []*smt.Term) bool {
 	if len(a) != len(b) {
 		return false
 	}
+	a, b = it.coalesceBytes(a, b) // bytes_runs.go
 	c := it.C
 	eq := c.True
 	for i := range a {
